@@ -79,6 +79,7 @@ type State struct {
 	model   Model // a satisfying assignment of pc (nil: none cached)
 	stubCalls int
 	lastNow   []*Term
+	lockCounts map[string]int
 	imprecise bool
 	unwind  int
 	splitLimit int
@@ -180,6 +181,12 @@ func (st *State) clone() *State {
 	n.choicePos = st.choicePos
 	n.stubCalls = st.stubCalls
 	n.lastNow = st.lastNow
+	if st.lockCounts != nil {
+		n.lockCounts = make(map[string]int, len(st.lockCounts))
+		for k, v := range st.lockCounts {
+			n.lockCounts[k] = v
+		}
+	}
 	n.inited = make(map[*ssa.Package]bool, len(st.inited))
 	for k, v := range st.inited {
 		n.inited[k] = v
@@ -625,7 +632,7 @@ func (e *Exec) runNested(st *State, fv FuncV, args []Value) Value {
 	depth := len(st.frames) - 1 // index of first callee frame
 	steps := 0
 	for len(st.frames) > depth {
-		e.step(st)
+		e.stepTolerant(st)
 		steps++
 		if steps > 2000000 {
 			panic(e.abort("nested run exceeded step limit"))
@@ -1286,3 +1293,41 @@ var modelVarLimit = func() int {
 	}
 	return n
 }()
+
+// stepTolerant: one step of a package initialiser; an instruction that cannot
+// be modelled is skipped (its result is the zero value) so that the remaining
+// package-level variables still get their initial values.
+func (e *Exec) stepTolerant(st *State) {
+	f := st.top()
+	nframes := len(st.frames)
+	defer func() {
+		if r := recover(); r != nil {
+			a, ok := r.(abortSignal)
+			if !ok {
+				panic(r)
+			}
+			// unwind to the frame that was executing and skip the instruction
+			for len(st.frames) > nframes {
+				st.frames = st.frames[:len(st.frames)-1]
+			}
+			if f.ip < len(f.block.Instrs) {
+				in := f.block.Instrs[f.ip]
+				if val, ok := in.(ssa.Value); ok {
+					func() {
+						defer func() { recover() }()
+						f.env[val] = e.zero(val.Type())
+					}()
+				}
+				if _, isCtl := in.(*ssa.If); isCtl {
+					panic(a) // cannot skip control flow
+				}
+				if _, isCtl := in.(*ssa.Return); isCtl {
+					panic(a)
+				}
+				f.ip++
+			}
+			e.res.note("package initialiser: skipped an instruction: " + a.msg)
+		}
+	}()
+	e.step(st)
+}
